@@ -114,6 +114,34 @@ func (c *Ctx) runFrameGrammar(rule string) (frames map[string]int, roots, frags 
 	return
 }
 
+// rawRule: the raw (unframed) bytes of a connection are at most one SSL reply, before any message.
+type rawRule struct{}
+
+func (rawRule) step(tc *traceClient, x *core.TSCtx, site ssa.Instruction, q, ev string) string {
+	switch {
+	case strings.HasPrefix(ev, "RAW:"):
+		if q != "r0" {
+			why := "a second raw byte is written on the same connection: the client reads it as the type byte of a message"
+			if q == "msg" {
+				why = "a raw byte is written after a framed message"
+			}
+			tc.fail("C02.R5", x, site, "serve:raw-byte@"+q, "at most one raw one-byte SSL reply per connection, before any framed message", why)
+			return q
+		}
+		if ev == "RAW:?" {
+			tc.fail("C02.R5", x, site, "serve:raw-bytes-unknown", "raw connection writes are the one-byte SSL replies only", "a connection write of something other than the two SSL reply bytes")
+		}
+		return "r1"
+	case strings.HasPrefix(ev, "M:"):
+		return "msg"
+	}
+	return q
+}
+
+func (rawRule) ret(tc *traceClient, x *core.TSCtx, r *ssa.Return, q string, err core.ErrK) string {
+	return q
+}
+
 func runC02(c *Ctx) {
 	R := c.R
 	R.Technique = "typestate / grammar-inclusion over CFG paths with function summaries (frame bracket + field grammar + count agreement); who-may-write ownership of the connection; structural rules on the Writer implementation"
@@ -121,7 +149,7 @@ func runC02(c *Ctx) {
 		"(R1) only Writer.End and the two one-byte SSL replies write to the connection; the writer's embedded io.Writer and frame bytes are not reachable from outside pkg/buffer; the session writer wraps the connection returned by Handshake; the writer is never handed to another goroutine. " +
 		"(R2) Start/Add*/End form a bracket on every path (no field outside a frame, no successful return with an open frame). " +
 		"(R3) between Start(T) and End the emitted field sequence is accepted by T's grammar from the protocol documentation, T is a constant with a known grammar, ReadyForQuery's status is one of I/T/E at every call site, ErrorResponse fields are text, use protocol codes, are pairwise distinct, S/C/M are unconditional and one NUL closes the list; an announced Int16 count is int16(len(X)) and the items are emitted by exactly one loop over that same X, one item per iteration, never left early before End. " +
-		"(R4) Writer.Start resets the frame before writing the 5-byte header, every Add* is guarded by the error latch, End writes the whole frame once, only on the nil-latch edge, after back-patching length = frame length - 1 into bytes 1..5, and resets on every exit. " +
+		"(R6) no raw message byte, and no string converted from raw message bytes, is copied verbatim into a text (fmt %s / %v / %c, errors.New, AddString) - strings from GetString are zero-free by construction. (R5) on every path of serve at most one raw one-byte SSL reply is written and it precedes every framed message. (R4) Writer.Start resets the frame before writing the 5-byte header, every Add* is guarded by the error latch, End writes the whole frame once, only on the nil-latch edge, after back-patching length = frame length - 1 into bytes 1..5, and resets on every exit. " +
 		"Not decided (value-level): NUL bytes inside handler-supplied strings, counts above 32767, DataRow payload bytes produced by pgx."
 	R.Assumptions = []string{"bytes.Buffer: writes append, Len() == len(Bytes()), Reset empties", "binary.BigEndian.PutUint32 stores 4 bytes big-endian", "handler callbacks touch the connection only through the objects the library hands them"}
 	R.Trusted = []string{"go/types + go/ssa", "PostgreSQL v3 message formats (frozen grammar table in internal/rules/frames.go)"}
@@ -143,6 +171,28 @@ func runC02(c *Ctx) {
 
 	// ---------- R1: who may write to the connection
 	c.c02Ownership()
+
+	// ---------- R6: raw client bytes never become message text
+	c.c02NoRawBytesInText()
+
+	// ---------- R5: at most one raw SSL reply byte per connection, and nothing framed before it
+	if serve := c.mustMethod("C02.R5", "wire", "Server", "serve"); serve != nil {
+		tc := newTraceClient(c, rawRule{})
+		ts := core.NewTS(c.P, tc)
+		ts.Relevant = c.reachesEvents()
+		if csc := c.P.Method("wire", "Session", "consumeSingleCommand"); csc != nil {
+			ts.Opaque[csc] = true // R1: no raw write exists outside the negotiation
+		}
+		before := len(R.Obls)
+		ts.Run(serve, joinState("", "r0"), core.TSEnv{})
+		for _, p := range ts.Problem {
+			R.Fail("C02.R5", "serve:unsupported", c.atFn(serve), "analysable", p)
+		}
+		R.Check(tc.Events["RAW:S"]+tc.Events["RAW:N"] >= 2, "C02.R5", "floor:raw-replies", c.atFn(serve), "both SSL reply sites were explored", sprintf("%v", tc.Events), "SSL reply sites not seen on the explored paths")
+		if len(R.Obls) == before+1 {
+			R.OK("C02.R5", "serve:at-most-one-raw-byte", c.atFn(serve), "on every path of a connection at most one raw one-byte SSL reply is written, and it precedes every framed message", sprintf("trace automaton r0 -RAW-> r1, RAW in r1 or after a message rejected; %d states", ts.States))
+		}
+	}
 
 	// ---------- R4: Writer implementation
 	c.c02WriterImpl()
@@ -486,4 +536,183 @@ func (c *Ctx) c02WriterImpl() {
 		}
 	}
 	R.Check(resetAll, "C02.R4", "End:reset-on-every-exit", c.atFn(end), "End empties the frame and clears the latch on every exit, also when the write failed", "a deferred (or dominating) Reset covers every return", "some return of End is not covered by a frame Reset")
+}
+
+// c02NoRawBytesInText (R6): strings sent to the client are NUL-terminated fields, so a text that contains a zero byte
+// cuts its field short and leaves stray bytes in the message. Strings obtained with GetString cannot contain a zero
+// byte (they end at the first one); raw message bytes can. The rule: a raw message byte (an element of the message
+// window or of a GetBytes result) or a string converted from raw message bytes is never formatted into a text with a
+// verb that copies it verbatim (%s / %v of the string, %c of the byte), concatenated into one, or handed to AddString.
+func (c *Ctx) c02NoRawBytesInText() {
+	R := c.R
+	var rawByte func(l *core.Lin, v ssa.Value, depth int) bool
+	rawByte = func(l *core.Lin, v ssa.Value, depth int) bool {
+		if depth > 5 {
+			return false
+		}
+		switch x := v.(type) {
+		case *ssa.UnOp:
+			if ia, ok := x.X.(*ssa.IndexAddr); ok && x.Op == token.MUL {
+				return msgDerived(l, ia.X, 0)
+			}
+		case *ssa.Index:
+			return msgDerived(l, x.X, 0)
+		case *ssa.Convert:
+			if bt, ok := x.Type().Underlying().(*types.Basic); ok && bt.Info()&types.IsInteger != 0 {
+				return rawByte(l, x.X, depth+1)
+			}
+		case *ssa.ChangeType:
+			return rawByte(l, x.X, depth+1)
+		case *ssa.Phi:
+			for _, e := range x.Edges {
+				if rawByte(l, e, depth+1) {
+					return true
+				}
+			}
+		}
+		return false
+	}
+	var rawString func(l *core.Lin, v ssa.Value, depth int) bool
+	rawString = func(l *core.Lin, v ssa.Value, depth int) bool {
+		if depth > 5 {
+			return false
+		}
+		switch x := v.(type) {
+		case *ssa.Convert:
+			if bt, ok := x.Type().Underlying().(*types.Basic); ok && bt.Info()&types.IsString != 0 {
+				return rawByte(l, x.X, 0) || msgDerived(l, x.X, 0)
+			}
+		case *ssa.ChangeType:
+			return rawString(l, x.X, depth+1)
+		case *ssa.BinOp:
+			if x.Op == token.ADD {
+				return rawString(l, x.X, depth+1) || rawString(l, x.Y, depth+1)
+			}
+		case *ssa.Phi:
+			for _, e := range x.Edges {
+				if rawString(l, e, depth+1) {
+					return true
+				}
+			}
+		}
+		return false
+	}
+	// the operands of a variadic ...any argument
+	variadic := func(v ssa.Value) []ssa.Value {
+		var out []ssa.Value
+		sl, ok := v.(*ssa.Slice)
+		if !ok {
+			return nil
+		}
+		a, ok := sl.X.(*ssa.Alloc)
+		if !ok {
+			return nil
+		}
+		type el struct {
+			idx int64
+			v   ssa.Value
+		}
+		var els []el
+		for _, r := range core.Referrers(a) {
+			ia, ok := r.(*ssa.IndexAddr)
+			if !ok {
+				continue
+			}
+			k, _ := core.ConstInt(ia.Index)
+			for _, r2 := range core.Referrers(ia) {
+				if st, ok := r2.(*ssa.Store); ok {
+					val := st.Val
+					if mi, ok := val.(*ssa.MakeInterface); ok {
+						val = mi.X
+					}
+					els = append(els, el{k, val})
+				}
+			}
+		}
+		sort.Slice(els, func(i, j int) bool { return els[i].idx < els[j].idx })
+		for _, e := range els {
+			out = append(out, e.v)
+		}
+		return out
+	}
+	verbs := func(format string) []byte {
+		var out []byte
+		for i := 0; i < len(format); i++ {
+			if format[i] != '%' {
+				continue
+			}
+			i++
+			for i < len(format) && strings.IndexByte("+-# 0123456789.*[]", format[i]) >= 0 {
+				i++
+			}
+			if i < len(format) && format[i] != '%' {
+				out = append(out, format[i])
+			}
+		}
+		return out
+	}
+	nText, nRaw := 0, 0
+	for _, fn := range c.P.ScopeFuncs() {
+		var l *core.Lin
+		lin := func() *core.Lin {
+			if l == nil {
+				l = core.NewLin(c.P, fn, c.modSets(), nil)
+			}
+			return l
+		}
+		for _, ci := range core.Calls(fn) {
+			callee := core.StaticCallee(ci)
+			args := ci.Common().Args
+			switch {
+			case isWriterMethod(ci, "AddString"):
+				nText++
+				if rawString(lin(), args[1], 0) {
+					nRaw++
+					R.Fail("C02.R6", fkey(fn)+":raw-bytes-as-string", c.at(ci), "message text never contains raw client bytes (which may be zero)", "AddString receives a string converted from raw message bytes: a zero byte ends the field early and leaves stray bytes in the message")
+				}
+			case callee != nil && callee.Pkg != nil && callee.Pkg.Pkg.Path() == "errors" && callee.Name() == "New":
+				nText++
+				if rawString(lin(), args[0], 0) {
+					nRaw++
+					R.Fail("C02.R6", fkey(fn)+":raw-bytes-in-error-text", c.at(ci), "message text never contains raw client bytes (which may be zero)", "errors.New receives a string built from raw message bytes")
+				}
+			case callee != nil && callee.Pkg != nil && callee.Pkg.Pkg.Path() == "fmt" && (callee.Name() == "Errorf" || callee.Name() == "Sprintf"):
+				nText++
+				format, okF := core.ConstString(args[0])
+				ops := variadic(args[len(args)-1])
+				vs := verbs(format)
+				for i, op := range ops {
+					verb := byte('v')
+					if okF && i < len(vs) {
+						verb = vs[i]
+					}
+					bad := ""
+					switch {
+					case rawString(lin(), op, 0) && (verb == 's' || verb == 'v'):
+						bad = "a string converted from raw message bytes is formatted with %" + string(verb)
+					case rawByte(lin(), op, 0) && verb == 'c':
+						bad = "a raw message byte is formatted with %c"
+					case msgDerived(lin(), op, 0) && verb == 's':
+						bad = "raw message bytes are formatted with %s"
+					}
+					if bad != "" {
+						nRaw++
+						R.Fail("C02.R6", fkey(fn)+":raw-bytes-in-text:"+callee.Name(), c.at(ci), "message text never contains raw client bytes (which may be zero)", bad+": for the byte 0 the text contains a zero byte, which ends the ErrorResponse field early and leaves stray bytes after the message's terminator (use %q / %d / %x)")
+					}
+				}
+			case callee != nil && callee.Pkg != nil && callee.Pkg.Pkg.Path() == "fmt" && (callee.Name() == "Sprint" || callee.Name() == "Sprintln"):
+				nText++
+				for _, op := range variadic(args[len(args)-1]) {
+					if rawString(lin(), op, 0) {
+						nRaw++
+						R.Fail("C02.R6", fkey(fn)+":raw-bytes-in-text:"+callee.Name(), c.at(ci), "message text never contains raw client bytes (which may be zero)", "a string converted from raw message bytes is printed verbatim")
+					}
+				}
+			}
+		}
+	}
+	R.Floor("C02.R6", "text-producing call sites inspected (AddString, fmt.Errorf / Sprintf / Sprint, errors.New)", nText, 20)
+	if nRaw == 0 {
+		R.OK("C02.R6", "no-raw-bytes-in-text", "-", "message text never contains raw client bytes (which may be zero)", sprintf("%d text-producing call sites, none takes a raw message byte / a string converted from raw message bytes verbatim", nText))
+	}
 }
